@@ -8,19 +8,19 @@
    One JSON schedule per behaviour is printed after MaxSteps steps. *)
 EXTENDS Speaker, SpeakerDom, Json
 
-CONSTANTS MaxSteps
+CONSTANTS MaxSteps, WithPolicy
 
 VARIABLES stalled, held, hist
-gvars == <<up, inr, loc, stalled, held, hist>>
+gvars == <<up, inr, loc, impPol, expPol, inrPol, expEff, stalled, held, hist>>
 
 GInit == PInit /\ stalled = {} /\ held = {} /\ hist = <<>>
 
 Log(e) == hist' = Append(hist, e)
 
 GUp(p)      == PUp(p) /\ p \notin held /\ Log([ev |-> "Up", p |-> p]) /\ UNCHANGED <<stalled, held>>
-GUpHold(p)  == PUp(p) /\ held = {} /\ held' = {p} /\ Log([ev |-> "UpHold", p |-> p]) /\ UNCHANGED stalled
+GUpHold(p)  == ~WithPolicy /\ PUp(p) /\ held = {} /\ held' = {p} /\ Log([ev |-> "UpHold", p |-> p]) /\ UNCHANGED stalled
 GRelease(p) == p \in held /\ held' = held \ {p} /\ Log([ev |-> "Release", p |-> p])
-               /\ UNCHANGED <<up, inr, loc, stalled>>
+               /\ UNCHANGED <<up, inr, loc, polvars, stalled>>
 GDown(p)    == PDown(p) /\ p \notin held /\ stalled' = stalled \ {p}
                /\ Log([ev |-> "Down", p |-> p]) /\ UNCHANGED held
 GAnn(p)     == /\ up[p] /\ p \notin held
@@ -32,20 +32,39 @@ GWd(p)      == /\ up[p] /\ p \notin held
                /\ LET x == RandomElement(Prefixes)
                   IN PWd(p, x) /\ Log([ev |-> "Wd", p |-> p, x |-> x])
                /\ UNCHANGED <<stalled, held>>
-GApiAdd     == LET x == RandomElement(Prefixes)
+GApiAdd     == LET x == IF WithPolicy THEN "x2" ELSE RandomElement(Prefixes)
                    r == MkLocal(RandomElement({0, 1}))
                IN PApiAdd(x, r) /\ Log([ev |-> "ApiAdd", x |-> x, r |-> r]) /\ UNCHANGED <<stalled, held>>
 GApiDel     == LET x == RandomElement(Prefixes)
                IN PApiDel(x) /\ Log([ev |-> "ApiDel", x |-> x]) /\ UNCHANGED <<stalled, held>>
 GStall(p)   == up[p] /\ p \notin stalled /\ p \notin held /\ stalled = {} /\ stalled' = {p}
-               /\ Log([ev |-> "Stall", p |-> p]) /\ UNCHANGED <<up, inr, loc, held>>
+               /\ Log([ev |-> "Stall", p |-> p]) /\ UNCHANGED <<up, inr, loc, polvars, held>>
 GResume(p)  == p \in stalled /\ stalled' = stalled \ {p}
-               /\ Log([ev |-> "Resume", p |-> p]) /\ UNCHANGED <<up, inr, loc, held>>
+               /\ Log([ev |-> "Resume", p |-> p]) /\ UNCHANGED <<up, inr, loc, polvars, held>>
+
+(* C15: policy changes and soft resets; a reset targets one neighbour or all of them *)
+Targets == {{p} : p \in Peers} \cup {Peers}
+TName(T) == IF T = Peers THEN "all" ELSE CHOOSE p \in T : TRUE
+GSetImp    == LET pol == RandomElement(Pols) IN
+                PSetImp(pol) /\ Log([ev |-> "SetImp", pol |-> pol]) /\ UNCHANGED <<stalled, held>>
+GSetExp    == LET pol == RandomElement(Pols) IN
+                PSetExp(pol) /\ Log([ev |-> "SetExp", pol |-> pol]) /\ UNCHANGED <<stalled, held>>
+GResetIn   == LET T == RandomElement(Targets) IN
+                PResetIn(T) /\ Log([ev |-> "ResetIn", p |-> TName(T)]) /\ UNCHANGED <<stalled, held>>
+GResetOut  == LET T == RandomElement(Targets) IN
+                PResetOut(T) /\ Log([ev |-> "ResetOut", p |-> TName(T)]) /\ UNCHANGED <<stalled, held>>
+GResetBoth == LET T == RandomElement(Targets) IN
+                PResetBoth(T) /\ Log([ev |-> "ResetBoth", p |-> TName(T)]) /\ UNCHANGED <<stalled, held>>
+GRefresh(p) == up[p] /\ p \notin held /\ PResetOut({p}) /\ Log([ev |-> "Refresh", p |-> p])
+               /\ UNCHANGED <<stalled, held>>
+GPolicy == WithPolicy /\ held = {} /\
+           (GSetImp \/ GSetExp \/ GResetIn \/ GResetOut \/ GResetBoth \/ \E p \in Peers : GRefresh(p))
 
 GNext == /\ Len(hist) < MaxSteps
          /\ \/ \E p \in Peers : GUp(p) \/ GUpHold(p) \/ GRelease(p) \/ GDown(p)
                                 \/ GAnn(p) \/ GAnn(p) \/ GWd(p) \/ GStall(p) \/ GResume(p)
             \/ GApiAdd \/ GApiDel
+            \/ GPolicy \/ GPolicy
 
 GSpec == GInit /\ [][GNext]_gvars
 
